@@ -47,14 +47,21 @@ Servers == {"s1", "s2", "s3", "s4", "sx"}
 MemberKinds == {"join", "invite", "leave", "ban", "knock"}
 Kinds == {"nonmember"} \cup MemberKinds
 
-GoodStates == {"ok", "vu_eq", "exp_later", "two_onebad"}
+\* exp_next: made with an old key whose expired_ts is origin_server_ts + 1 ms (valid: the key expired after the event)
+\* mal_good: two signatures, one that is not a signature at all (not base64 / wrong length), one good (other key)
+GoodStates == {"ok", "vu_eq", "exp_later", "exp_next", "two_onebad", "mal_good"}
 \* stale_kept: a genuine signature of that key over the event with one content key of the redaction keep-list of
 \* its type changed (the signature does not cover what the room version says a signature covers)
-Faults == {"absent", "corrupt", "stale", "stale_kept", "wrongkey", "unknownkey", "expired", "after_vu"}
+\* exp_eq: the key's expired_ts equals origin_server_ts (a key is valid strictly before its expired_ts)
+\* vu_m1: origin_server_ts is 1 ms after valid_until_ts;  malformed: the only signature is not base64 / has the wrong length
+Faults == {"absent", "corrupt", "stale", "stale_kept", "wrongkey", "unknownkey", "expired", "after_vu", "exp_eq", "vu_m1",
+           "malformed"}
 
 \* --- what a signature covers: the redacted event (Redaction.tla), per room version and event type ----------------
+\* org.example.member: NOT a membership event, but dressed like an invite of a user on s2 carrying
+\* join_authorised_via_users_server (state key, content): needs nothing beyond the sender's server
 ETypes == {"m.room.message", "m.room.aliases", "m.room.create", "m.room.join_rules", "m.room.power_levels",
-           "m.room.history_visibility", "m.room.redaction"}
+           "m.room.history_visibility", "m.room.redaction", "org.example.member"}
 TypeOf(e) == IF e.kind = "nonmember" THEN e.etype ELSE "m.room.member"
 \* the content keys the replay gives an event
 ContentKeysOf(v, e) ==
@@ -66,6 +73,7 @@ ContentKeysOf(v, e) ==
           [] e.etype = "m.room.power_levels" -> {"ban", "users", "invite", "notifications"}
           [] e.etype = "m.room.history_visibility" -> {"history_visibility", "foo"}
           [] e.etype = "m.room.redaction" -> {"redacts", "reason"}
+          [] e.etype = "org.example.member" -> {"membership", "join_authorised_via_users_server", "body"}
     ELSE {"membership", "displayname"}
          \cup (IF e.via THEN {"join_authorised_via_users_server"} ELSE {})
          \cup (IF e.kind = "invite" THEN {NestedKey} ELSE {})
@@ -78,9 +86,9 @@ KeptCon(v, e) == DOMAIN RedactV(v, AbsEvent(v, e)).con
 KeptTpi(v, e) == DOMAIN RedactV(v, AbsEvent(v, e)).tpi.keys
 \* the kept content key a stale_kept signature disagrees on ("" if the type keeps none)
 KeptKey(v, e) == IF KeptCon(v, e) \ {NestedKey} = {} THEN "" ELSE CHOOSE k \in KeptCon(v, e) \ {NestedKey} : TRUE
-TimeFaults == {"expired", "after_vu"}
-TimeGood == {"vu_eq", "exp_later"}
-OtherModes == {"absent", "ok", "corrupt"}    \* what every server that is not required carries
+TimeFaults == {"expired", "after_vu", "exp_eq", "vu_m1"}
+TimeGood == {"vu_eq", "exp_later", "exp_next"}
+OtherModes == {"absent", "ok", "corrupt", "malformed"}    \* what every server that is not required carries
 TimeModes == {"normal", "future6d", "future8d"}
 
 \* Where the verifier's keys come from (the key ring: a database, then key fetchers for what the database lacks
@@ -94,8 +102,11 @@ TimeModes == {"normal", "future6d", "future8d"}
 \* pres: how the event reaches the verifier: as it was signed ("trusted"), or over federation with an extra
 \* top-level key added in transit ("received": the content hash fails, NewEventFromUntrustedJSON hands out the
 \* redacted form) - the verdict is the same: signatures cover the redacted form
-VARIABLES ver, ev, sig, tm, src, vol, pres, verdict, phase
-vars == <<ver, ev, sig, tm, src, vol, pres, verdict, phase>>
+\* fail: "none" | "db" | "fetcher" - which key source answers every lookup with an error
+\* mapst (pseudo-ID joins only): the mxid_mapping of the join: "ok" | "missing" | "corrupt" (its server signature
+\* does not verify); everywhere else "ok"
+VARIABLES ver, ev, sig, tm, src, vol, pres, fail, mapst, verdict, phase
+vars == <<ver, ev, sig, tm, src, vol, pres, fail, mapst, verdict, phase>>
 
 \* --- the property sentence -----------------------------------------------------------------------
 Required(v, e) ==
@@ -106,15 +117,20 @@ Required(v, e) ==
 
 \* a signature state is a valid signature by a key valid at origin_server_ts under the version's rule
 Good(st, t, v) ==
-    IF PseudoIDs(v) THEN st \in {"ok", "two_onebad"}
-    ELSE CASE st \in {"ok", "vu_eq", "two_onebad"} -> (t # "future8d" \/ ~StrictKeyValidity(v))
-           [] st = "exp_later" -> TRUE
-           [] st = "after_vu" -> ~StrictKeyValidity(v)
+    IF PseudoIDs(v) THEN st \in {"ok", "two_onebad", "mal_good"}
+    ELSE CASE st \in {"ok", "vu_eq", "two_onebad", "mal_good"} -> (t # "future8d" \/ ~StrictKeyValidity(v))
+           [] st \in {"exp_later", "exp_next"} -> TRUE
+           [] st \in {"after_vu", "vu_m1"} -> ~StrictKeyValidity(v)
            [] OTHER -> FALSE
 
 \* what the verifier ends up knowing about the key behind the signature of s
-Eff(st, where, volunteered) == IF st = "after_vu" /\ volunteered /\ where = "db" THEN "ok" ELSE st
-EffSig(sg, sr, vl) == [s \in Servers |-> Eff(sg[s], sr[s], vl)]
+\* fl: the key database / the key fetcher answers with an error: no key can be had from it (a verifier that
+\* cannot obtain the key must not accept)
+Eff(st, where, volunteered, fl) ==
+    IF st = "absent" THEN st
+    ELSE IF fl = "db" \/ (fl = "fetcher" /\ where = "fetcher") THEN "nokey"
+    ELSE IF st \in {"after_vu", "vu_m1"} /\ volunteered /\ fl = "none" /\ where = "db" THEN "ok" ELSE st
+EffSig(sg, sr, vl, fl) == [s \in Servers |-> Eff(sg[s], sr[s], vl, fl)]
 
 \* The redacted form a receiver gets after a hash failure says what the room version's redaction keeps.  Room
 \* version 8 has restricted joins but does not keep join_authorised_via_users_server (room version 9 repairs
@@ -142,7 +158,7 @@ StatesFor(v, e) ==
      \ (IF KeptKey(v, e) = "" THEN {"stale_kept"} ELSE {}))
     \* the event types that only differ in what their signature covers: the crypto states
     \cap (IF e.kind = "nonmember" /\ e.etype # "m.room.message"
-          THEN {"ok", "absent", "corrupt", "stale", "stale_kept"} ELSE GoodStates \cup Faults)
+          THEN {"ok", "absent", "corrupt", "stale", "stale_kept", "malformed"} ELSE GoodStates \cup Faults)
 FullFamily(e) == e.kind # "nonmember" \/ e.etype = "m.room.message"
 
 Assignments(v, e) ==
@@ -177,22 +193,32 @@ Init ==
           /\ ev = e
           /\ \/ (\E a \in Assignments(v, e) : \E k \in Sources(v, e, a) :
                     /\ sig = a /\ tm = "normal" /\ src = k[1] /\ vol = k[2]
+                    \* failing key sources: with everything signed well (what would otherwise succeed)
+                    /\ fail \in (IF v \in SourceVersions /\ ~PseudoIDs(v) /\ FullFamily(e)
+                                    /\ (\A s \in Servers : a[s] = IF s \in Required(v, e) THEN "ok" ELSE "absent")
+                                 THEN (IF k = <<AllDB, FALSE>> THEN {"none", "db"} ELSE {"none", "db", "fetcher"})
+                                 ELSE {"none"})
+                    /\ mapst \in (IF PseudoIDs(v) /\ e.kind = "join"
+                                     /\ (\A s \in Servers : a[s] = IF s \in Required(v, e) THEN "ok" ELSE "absent")
+                                  THEN {"ok", "missing", "corrupt"} ELSE {"ok"})
                     \* the federation presentation: with the plain key sources and silent other servers
                     \* (not the joins of pseudo-ID rooms: redaction drops their mxid_mapping, which is left out here)
                     /\ pres \in (IF k = <<AllDB, FALSE>> /\ (\A s \in Servers \ Required(v, e) : a[s] = "absent")
                                     /\ ~(PseudoIDs(v) /\ e.kind = "join")
+                                    /\ fail = "none" /\ mapst = "ok"
                                  THEN {"trusted", "received"} ELSE {"trusted"}))
              \/ (~PseudoIDs(v) /\ FullFamily(e) /\ sig = [s \in Servers |-> IF s \in Required(v, e) THEN "ok" ELSE "absent"]
-                 /\ tm \in {"future6d", "future8d"} /\ src = AllDB /\ vol = FALSE /\ pres = "trusted")
+                 /\ tm \in {"future6d", "future8d"} /\ src = AllDB /\ vol = FALSE /\ pres = "trusted"
+                 /\ fail = "none" /\ mapst = "ok")
     /\ verdict = FALSE
     /\ phase = "init"
 
 \* VerifyEventSignatures
 Check ==
     /\ phase = "init"
-    /\ verdict' = Verify(ver, ev, EffSig(sig, src, vol), tm, pres)
+    /\ verdict' = (Verify(ver, ev, EffSig(sig, src, vol, fail), tm, pres) /\ mapst = "ok")
     /\ phase' = "done"
-    /\ UNCHANGED <<ver, ev, sig, tm, src, vol, pres>>
+    /\ UNCHANGED <<ver, ev, sig, tm, src, vol, pres, fail, mapst>>
 
 Next == Check
 Spec == Init /\ [][Next]_vars
@@ -216,15 +242,18 @@ TypeOK == /\ ev.kind \in Kinds /\ ev.tsrv \in Servers /\ ev.asrv \in Servers /\ 
           /\ \A s \in Servers : sig[s] \in GoodStates \cup Faults
           /\ tm \in TimeModes
 \* succeeds exactly when every required server validly signed
-PExact == Done => (verdict <=> \A s \in R : Good(Eff(sig[s], src[s], vol), tm, ver) = TRUE)
+PExact == Done => (verdict <=> (mapst = "ok" /\ \A s \in R : Good(Eff(sig[s], src[s], vol, fail), tm, ver) = TRUE))
+\* a key source that fails never makes an event verify
+PFail == Done => /\ (fail = "db" /\ R # {} => ~verdict)
+                 /\ (fail # "none" => (verdict => Verify(ver, ev, EffSig(sig, src, vol, "none"), tm, pres)))
 \* an expired key is final, and where the keys come from matters only to a key held past its valid_until_ts
 PSources == Done => /\ (\A s \in R : sig[s] = "expired" => ~verdict)
-                    /\ ((\A s \in R : sig[s] # "after_vu") => verdict = Verify(ver, ev, sig, tm, pres))
-                    /\ (~vol => verdict = Verify(ver, ev, sig, tm, pres))
+                    /\ ((fail = "none" /\ mapst = "ok" /\ \A s \in R : sig[s] \notin {"after_vu", "vu_m1"}) => verdict = Verify(ver, ev, sig, tm, pres))
+                    /\ (~vol /\ fail = "none" /\ mapst = "ok" => verdict = Verify(ver, ev, sig, tm, pres))
 \* a missing / corrupted / wrong-key / out-of-validity signature from any one required server makes it fail
-POneBad == Done => (\A s \in R : sig[s] \in {"absent", "corrupt", "stale", "stale_kept", "wrongkey", "unknownkey", "expired"} => ~verdict)
+POneBad == Done => (\A s \in R : sig[s] \in {"absent", "corrupt", "stale", "stale_kept", "wrongkey", "unknownkey", "expired", "exp_eq", "malformed"} => ~verdict)
 \* signatures of other servers never matter
-POthers == Done => verdict = Verify(ver, ev, [s \in Servers |-> IF s \in R THEN Eff(sig[s], src[s], vol) ELSE "absent"], tm, pres)
+POthers == (Done /\ mapst = "ok") => verdict = Verify(ver, ev, [s \in Servers |-> IF s \in R THEN Eff(sig[s], src[s], vol, fail) ELSE "absent"], tm, pres)
 \* sanity of Required
 PRequired ==
     /\ "s1" \in R
@@ -236,6 +265,6 @@ PRequired ==
     /\ (BaseOf(ver) < 8 /\ ev.kind = "join" /\ EventIDFormat(ver) # 1 => R = {"s1"})
     /\ Cardinality(R) <= 3
 \* strictness only ever matters through the validity period
-PStrict == (Done /\ tm = "normal" /\ \A s \in R : sig[s] # "after_vu") =>
+PStrict == (Done /\ tm = "normal" /\ fail = "none" /\ mapst = "ok" /\ \A s \in R : sig[s] \notin {"after_vu", "vu_m1"}) =>
               (verdict <=> \A s \in R : sig[s] \in GoodStates)
 =============================================================================
